@@ -80,14 +80,21 @@ class Recorder:
     def __init__(self, repo):
         self.events = []
         self.repo = os.path.realpath(repo) + os.sep
+        self._files = {}
 
     def hit(self, kind, obj):
         f = sys._getframe(2)
         site = ''
         while f is not None:
             fn = f.f_code.co_filename
-            if os.path.realpath(fn).startswith(self.repo) and (os.sep + 'jedi' + os.sep) in fn:
-                site = fn.split(os.sep + 'jedi' + os.sep)[-1] + ':' + f.f_code.co_name
+            rel = self._files.get(fn)
+            if rel is None:
+                rel = ''
+                if (os.sep + 'jedi' + os.sep) in fn and os.path.realpath(fn).startswith(self.repo):
+                    rel = fn.split(os.sep + 'jedi' + os.sep)[-1]
+                self._files[fn] = rel
+            if rel:
+                site = rel + ':' + f.f_code.co_name
                 break
             f = f.f_back
         self.events.append((kind, obj, site))
